@@ -36,6 +36,7 @@ CLASSES = [
     "terminal_inside_film", "terminal_outside_film", "seed_other_device", "seed_other_device_shared_mesh", "seed_device_modified_in_place", "A_wrong_shape_1col", "A_wrong_shape_flat", "A_wrong_length",
     "A_plain_callable_1col", "A_plain_callable_flat", "A_plain_callable_wrong_length", "A_plain_callable_transposed", "unbalanced_const_small_current",
     "late_opt_dt", "late_opt_terminal_psi", "late_opt_multiplier_high", "late_opt_drag_zero", "late_opt_sparse_unknown",
+    "opt_dt_fixed_step", "terminal_moved_off_boundary_after_solve",
     "terminal_tiny_on_vertex", "seed_device_without_terminals", "seed_device_first_terminal_only", "seed_device_fewer_holes",
     "polygon_self_intersecting", "polygon_two_points", "polygon_bad_shape", "film_unnamed", "hole_unnamed", "hole_duplicate_names",
     "terminal_duplicate_names", "terminal_unnamed", "probe_outside_film", "probe_in_hole", "probe_bad_shape",
@@ -56,6 +57,8 @@ def gen_cases(tier, seed):
                 mags = [1e-2, 1e-4, 1e-6]
             if cls == "terminal_tiny_on_vertex":
                 mags = [0.1, 1e-2, 1e-6]
+            if cls in ("opt_dt_fixed_step", "terminal_moved_off_boundary_after_solve"):
+                mags = [1.0, 1e-2, 1e-6]
             if cls.startswith("epsilon"):
                 mags = [1.0, 1e-3, 1e-6]
             for mag in mags:
@@ -236,6 +239,34 @@ def run_case(spec):
                     late = {"late_opt_dt": dict(dt_init=0.1, dt_max=0.05), "late_opt_terminal_psi": dict(terminal_psi=1.5),
                             "late_opt_multiplier_high": dict(adaptive_time_step_multiplier=1.5), "late_opt_drag_zero": dict(include_screening=True, screening_step_drag=0.0),
                             "late_opt_sparse_unknown": dict(sparse_solver="nosuchsolver")}[cls]
+                elif cls == "opt_dt_fixed_step":
+                    # dt_init above dt_max is inconsistent whether or not the step is adaptive
+                    o.update(adaptive=False, dt_max=0.005, dt_init=0.005 * (1 + mag))
+                elif cls == "terminal_moved_off_boundary_after_solve":
+                    # the device is solved once (legitimate), then one terminal polygon is moved in place so that it no longer
+                    # touches the film; the second problem is ill posed
+                    so = sim.build_options(dict(o), output_file=None)
+                    tdgl.solve(device, so, applied_vector_potential=0.05, terminal_currents=tc)
+                    t0 = device.terminals[0]
+                    tp = np.asarray(t0.points)
+                    fp_ = np.asarray(device.film.points)
+                    W_ = float(np.ptp(fp_[:, 0]))
+                    # move it outwards (away from the film centre) until a gap of mag * W remains between terminal and film
+                    cen_f = fp_[:-1].mean(axis=0)
+                    cen_t = tp[:-1].mean(axis=0)
+                    if abs(cen_t[0] - cen_f[0]) >= abs(cen_t[1] - cen_f[1]):
+                        sgn = np.sign(cen_t[0] - cen_f[0]) or 1.0
+                        inner = tp[:, 0].min() if sgn > 0 else tp[:, 0].max()
+                        edge = fp_[:, 0].max() if sgn > 0 else fp_[:, 0].min()
+                        t0.translate(dx=float(edge - inner + sgn * mag * W_), inplace=True)
+                    else:
+                        sgn = np.sign(cen_t[1] - cen_f[1]) or 1.0
+                        inner = tp[:, 1].min() if sgn > 0 else tp[:, 1].max()
+                        edge = fp_[:, 1].max() if sgn > 0 else fp_[:, 1].min()
+                        t0.translate(dy=float(edge - inner + sgn * mag * W_), inplace=True)
+                    tm.tempdirs.clear(); tm.handler_paths.clear(); tm.stages.clear()
+                    rec.counts.clear()
+                    before_tmp = set(os.listdir(tempfile.gettempdir()))
                 elif cls == "opt_dt":
                     o.update(dt_init=0.1, dt_max=0.05)
                 elif cls == "opt_terminal_psi":
